@@ -114,20 +114,20 @@ fn families(quick: bool) -> Vec<LmFamily> {
             offsets: vec![0.0],
             named: false,
         });
-        v.push(LmFamily {
-            name: "F5-milp-n3m1",
-            n: 3,
-            m: 1,
-            doms: vec![Dom::Bool, Dom::Int(0, 2), Dom::NonNeg],
-            coefs: vec![-1.0, 1.0, 2.0],
-            rhss: vec![1.0, 2.5],
-            rels: vec![Rel::Le, Rel::Ge, Rel::Eq],
-            objs: vec![-1.0, 1.0, 2.0],
-            senses: vec![Sense::Min, Sense::Max],
-            offsets: vec![0.0],
-            named: true,
-        });
     }
+    v.push(LmFamily {
+        name: "F5-milp-n3m1",
+        n: 3,
+        m: 1,
+        doms: vec![Dom::Bool, Dom::Int(0, 2), Dom::NonNeg],
+        coefs: vec![-1.0, 1.0, 2.0],
+        rhss: vec![1.0, 2.5],
+        rels: vec![Rel::Le, Rel::Ge, Rel::Eq],
+        objs: vec![-1.0, 1.0, 2.0],
+        senses: vec![Sense::Min, Sense::Max],
+        offsets: vec![0.0],
+        named: true,
+    });
     v.push(LmFamily {
         name: "F6-satisfy",
         n: 2,
